@@ -113,8 +113,14 @@ fn make_seed(i: u64, rng: &mut Rng) -> Option<Seed> {
     // the nonce is bound through the query positions only: keep >= 40 bits of position entropy so
     // that a nonce edit cannot reproduce the same positions by chance
     let lde_bits = (shape.n() * options.blowup_factor()).ilog2() as usize;
-    let q = (40usize.div_ceil(lde_bits)).max(rng.range(6, 9)).min(shape.n() * options.blowup_factor() - 1);
-    options = ProofOptions::new(q, options.blowup_factor(), if i % 5 == 0 { 4 } else { 0 }, ext, options.to_fri_options().folding_factor(), options.to_fri_options().remainder_max_degree());
+    let mut q = (40usize.div_ceil(lde_bits)).max(rng.range(6, 9)).min(shape.n() * options.blowup_factor() - 1);
+    // every eighth seed: one or two queries, so that openings of a single leaf index occur (in the
+    // trace / constraint trees and in the deep FRI layers); edits of the nonce are not judged on
+    // these seeds (see `judge`), everything else is
+    if i % 8 == 7 {
+        q = 1 + (i as usize / 8) % 2;
+    }
+    options = ProofOptions::new(q, options.blowup_factor(), if i % 5 == 0 && i % 8 != 7 { 4 } else { 0 }, ext, options.to_fri_options().folding_factor(), options.to_fri_options().remainder_max_degree());
     let (cols, values) = stark::gen_trace(fd, &shape, rng, TraceKind::Random);
     let inst = Instance { fd, hs, shape, options, cols, values };
     let proof = match stark::prove(&inst, false) {
@@ -205,6 +211,14 @@ fn judge(st: &mut State, seed: &Seed, canon_orig: &[u8], m: &Mutant) {
         if !m.class.starts_with(f.as_str()) {
             return;
         }
+    }
+    // the nonce is bound through the query positions only: with one or two queries another nonce
+    // reproduces the positions with probability 1/LDE .. and the edited proof is then a valid proof
+    // with another nonce; nonce edits (and sampled pairs, which may contain one) are judged on the
+    // seeds with >= 40 bits of position entropy only
+    if seed.inst.options.num_queries() <= 2 && (m.class.contains("pow_nonce") || m.class.starts_with("pair:")) {
+        st.count("skipped.nonce_edit_on_low_entropy_seed");
+        return;
     }
     let (fd, hs) = (seed.inst.fd, seed.inst.hs);
     st.evals += 1;
@@ -404,6 +418,9 @@ fn case(i: u64, rng: &mut Rng, st: &mut State, quick: bool) {
     if !seed.inst.shape.meta.is_empty() {
         st.count("seeds.with_trace_metadata");
     }
+    if seed.inst.options.num_queries() <= 2 {
+        st.count("seeds.one_or_two_queries");
+    }
     st.add("seed_proof_bytes", n as u64);
     st.distinct.insert(wfv::fnv(&seed.bytes));
     st.sample("seed", || J::obj(vec![("field", J::s(format!("{:?}", seed.inst.fd))), ("hasher", J::s(format!("{hs:?}"))), ("options", J::s(format!("{:?}", seed.inst.options))), ("shape", seed.inst.shape.json()), ("proof_bytes", J::i(n)), ("layout_fields", J::i(seed.map.fields.len()))]));
@@ -416,7 +433,7 @@ fn main() {
     let n = run.size(48, 2_400);
     run.par("seeds", n, |i, rng, st| case(i, rng, st, quick));
     // distinct_nontrivial counts mutants that parsed with different content: approximate by rejected
-    let mut require = vec![("outcome.rejected".to_string(), 10_000), ("outcome.parse_failed".to_string(), 1000), ("mutants.bitflip".to_string(), 10_000), ("mutants.semantic".to_string(), 50), ("mutants.remainder_plus_vanishing_polynomial_of_queried_points".to_string(), 3), ("seeds.multi_segment".to_string(), 3), ("seeds.with_trace_metadata".to_string(), 5), ("seeds.fri_layers_0".to_string(), 1), ("seeds.fri_layers_1".to_string(), 1)];
+    let mut require = vec![("outcome.rejected".to_string(), 10_000), ("outcome.parse_failed".to_string(), 1000), ("mutants.bitflip".to_string(), 10_000), ("mutants.semantic".to_string(), 50), ("mutants.remainder_plus_vanishing_polynomial_of_queried_points".to_string(), 3), ("seeds.multi_segment".to_string(), 3), ("seeds.with_trace_metadata".to_string(), 5), ("seeds.one_or_two_queries".to_string(), 3), ("seeds.fri_layers_0".to_string(), 1), ("seeds.fri_layers_1".to_string(), 1)];
     for c in ["scalar", "length", "blob-grow1", "blob-shrink1", "merkle-extra-node-in-vector", "trailing-garbage", "truncated"] {
         require.push((format!("mutants.{c}"), 20));
     }
@@ -432,7 +449,7 @@ fn main() {
         run.merge(s);
     }
     run.finish(Finish {
-        rule: "seed proofs of small C01-family configurations (n = 8..32, 2..6 queries, 0..max FRI layers, single and multi segment, Lagrange kernel, trace metadata of 0..255 bytes at the element-chunk boundaries, all 12 field x hasher combinations, three extension degrees); mutants: every single-bit flip of the serialized proof (exhaustive in thorough; in quick all bits for proofs <= 1500 bytes and for the first 200 bytes, one random bit per byte beyond), every scalar and length field located by the wire-layout parser set to {0,1,max-1,max,+-1,random,...}, every blob grown / shrunk by one byte, one zero byte, one digest, one field element and one table row with all enclosing lengths fixed up, emptied, bit-flipped; rows added to / removed from every opened table at once; out-of-domain frames re-encoded with frame size 1/3/4, a column added/removed, Lagrange frame injected/resized; FRI layers removed / duplicated / swapped; query records swapped; one extra / one fewer digest inside each Merkle node vector; trailing garbage; truncation at every offset; pairs of structured edits (sampled second generation); semantic edits through the public fields (nonce, unique-query count, gkr_proof toggled/replaced, query sets swapped); FRI remainder replaced by remainder + c*prod(x - x_q) over the final query points (positions read from the verifier's coin). Oracle: parse failure, or decoded content equal to the original (or equal up to digest re-encoding / partition count: outside the claim), or rejected; acceptance otherwise is a violation. distinct_nontrivial = number of mutants that parsed to different content and were rejected + seeds".into(),
+        rule: "seed proofs of small C01-family configurations (n = 8..32, 6..9 queries with >= 40 bits of query-position entropy, every eighth seed with one or two queries (single-index openings; nonce edits not judged there), 0..max FRI layers, single and multi segment, Lagrange kernel, trace metadata of 0..255 bytes at the element-chunk boundaries, all 12 field x hasher combinations, three extension degrees); mutants: every single-bit flip of the serialized proof (exhaustive in thorough; in quick all bits for proofs <= 1500 bytes and for the first 200 bytes, one random bit per byte beyond), every scalar and length field located by the wire-layout parser set to {0,1,max-1,max,+-1,random,...}, every blob grown / shrunk by one byte, one zero byte, one digest, one field element and one table row with all enclosing lengths fixed up, emptied, bit-flipped; rows added to / removed from every opened table at once; out-of-domain frames re-encoded with frame size 1/3/4, a column added/removed, Lagrange frame injected/resized; FRI layers removed / duplicated / swapped; query records swapped; one extra / one fewer digest inside each Merkle node vector; trailing garbage; truncation at every offset; pairs of structured edits (sampled second generation); semantic edits through the public fields (nonce, unique-query count, gkr_proof toggled/replaced, query sets swapped); FRI remainder replaced by remainder + c*prod(x - x_q) over the final query points (positions read from the verifier's coin). Oracle: parse failure, or decoded content equal to the original (or equal up to digest re-encoding / partition count: outside the claim), or rejected; acceptance otherwise is a violation. distinct_nontrivial = number of mutants that parsed to different content and were rejected + seeds".into(),
         assumptions: vec!["all bindings are hash based: accidental acceptance needs a collision".into(), "panics are attributed to C06 and only counted here".into()],
         exhaustive: !quick,
         require,
